@@ -1688,6 +1688,20 @@ func (mgr *Manager) convertStreamJob(allConverters []*converters.CachedConverter
 	}
 }
 
+// converterOutputDropped has to be called after the cached output of a converter was deleted:
+// tags with data filters might have matched on it.
+func (mgr *Manager) converterOutputDropped() {
+	for _, tag := range mgr.tags {
+		if tag.features.MainFeatures&query.FeatureFilterData == 0 && tag.features.SubQueryFeatures&query.FeatureFilterData == 0 {
+			continue
+		}
+		tag.Uncertain = mgr.allStreams
+	}
+	mgr.updatedStreamsDuringTaggingJob.Or(mgr.allStreams)
+	mgr.inheritTagUncertainty()
+	mgr.startTaggingJobIfNeeded()
+}
+
 func (mgr *Manager) invalidateConverters(updatedStreams *bitmask.LongBitmask) {
 	for _, converter := range mgr.converters {
 		invalidatedStreams := converter.InvalidateChangedStreams(updatedStreams)
@@ -1939,6 +1953,7 @@ func (mgr *Manager) removeConverter(path string) error {
 	if err := converter.Reset(); err != nil {
 		return err
 	}
+	mgr.converterOutputDropped()
 
 	delete(mgr.converters, name)
 	delete(mgr.streamsToConvert, name)
@@ -1962,6 +1977,7 @@ func (mgr *Manager) restartConverterProcess(path string) error {
 	if err := converter.Reset(); err != nil {
 		return err
 	}
+	mgr.converterOutputDropped()
 
 	// run the converter on all streams that match the tags it is attached to again
 	for _, tag := range mgr.tags {
@@ -2028,6 +2044,7 @@ func (mgr *Manager) detachConverterFromTag(tag *tag, tagName string, converter *
 		if err := converter.Reset(); err != nil {
 			return err
 		}
+		mgr.converterOutputDropped()
 	}
 	return nil
 }
